@@ -8,6 +8,8 @@ for f in sorted(glob.glob(os.path.join(os.path.dirname(os.path.abspath(__file__)
     c = m.get("check_result", {})
     conf = m.get("confirmation", {}).get("confirmed")
     caught = "quick" if str(c.get("quick", "")).startswith("VIOLATION") else ("thorough" if str(c.get("thorough", "")).startswith("VIOLATION") else "NO")
+    if c.get("caught_by"):
+        caught = c["caught_by"]
     rows.append("| %s | %s | %s | %s | %s | %s |" % (d, m.get("property"), (m.get("summary") or "").replace("|", "/")[:230], (m.get("needs") or "").replace("|", "/")[:200], "yes" if conf else "NO", caught + ((" (after: " + m["strengthened"] + ")") if m.get("strengthened") else "")))
 print("| dir | property | change | needs to manifest | confirmed | caught by |")
 print("|---|---|---|---|---|---|")
